@@ -79,66 +79,91 @@ def isLinearization (s : SeqState) (L : List Call) : Bool :=
 def Linearizable (s : SeqState) (H : List Call) : Prop :=
   ∃ L : List Call, L.Perm H ∧ isLinearization s L = true
 
-/-! #### finding the linearization (greedy; its answer is *checked* by `isLinearization`, so a
-    bug here can only make the check fail, never pass wrongly)
+/-! #### finding the linearization
 
-  Calls are entered in `before` order into a window `W` of calls that may be linearized next
-  (`before` < the smallest `after` of any call not yet placed).  At every step all `RollOverCount`
-  reads in the window that agree with the current state are placed, then the window's call
-  returning the next value — the one with the smallest `after` if several do (values repeat
-  every 65536 calls).  Exchange arguments show both choices lose nothing, so a linearizable
-  history is always accepted; see notes in Rtp/Props/C07.lean. -/
+  Greedy search, proved sound AND complete in Rtp/Props/C07.lean (`c07_linearizable_iff`): it
+  finds a linearization whenever one exists, so the check never raises a false alarm.
 
-abbrev CI := Call × Nat     -- a call and its index in the history
+  The calls not yet placed, `R`, are kept sorted by `before`.  A call can be placed next only if no
+  other remaining call has returned before it was invoked, i.e. its `before` is smaller than every
+  remaining `after`; those calls are a prefix of `R`, the `window`.  If the window contains a
+  `RollOverCount` read that agrees with the current state it is placed (a read can always go
+  first).  Otherwise the window's `NextSequenceNumber` call returning the next value is placed —
+  the one with the smallest `after` if there are several (values repeat every 65536 calls): by an
+  exchange argument neither choice loses a linearization. -/
 
-def minAfter (W : List CI) : Option Nat :=
-  W.foldl (fun m c => match m with | none => some c.1.after | some x => some (min x c.1.after)) none
+/-- longest prefix in which every call was invoked before all the earlier ones returned -/
+def windowAux (m : Nat) : List Call → List Call
+  | [] => []
+  | c :: cs => if c.before < m then c :: windowAux (min m c.after) cs else []
 
-/-- move calls from `rest` (sorted by `before`) into the window while they are concurrent with
-    everything in it -/
-def fill (W : List CI) : List CI → List CI × List CI
-  | [] => (W, [])
-  | c :: rest =>
-    match minAfter W with
-    | none => fill (c :: W) rest
-    | some m => if c.1.before < m then fill (c :: W) rest else (W, c :: rest)
+/-- the calls of `R` (sorted by `before`) that may be linearized next -/
+def window : List Call → List Call
+  | [] => []
+  | c :: cs => c :: windowAux c.after cs
 
-def pickMinAfter : List CI → Option CI
+def rocMatch (s : SeqState) (c : Call) : Bool := c.op == .roc && c.res == s.roc.toNat
+def nextMatch (s : SeqState) (c : Call) : Bool := c.op == .next && c.res == s.next.1.toNat
+
+/-- a call with the smallest `after` -/
+def pickMinAfter : List Call → Option Call
   | [] => none
   | c :: cs => match pickMinAfter cs with
     | none => some c
-    | some d => if c.1.after < d.1.after then some c else some d
+    | some d => if c.after ≤ d.after then some c else some d
 
-/-- keys: `2q` for the q-th `next`, `2q+1` for a `RollOverCount` read after q `next`s -/
-def assign : Nat → SeqState → Nat → List CI → List CI → Array Nat → Array Nat
-  | 0, _, _, _, _, keys => keys
-  | fuel + 1, s, q, W, rest, keys =>
-    let (W, rest) := fill W rest
-    let rocNow := s.roc.toNat
-    let (rs, W') := W.partition (fun c => c.1.op == .roc && c.1.res == rocNow)
-    if !rs.isEmpty then
-      assign fuel s q W' rest (rs.foldl (fun k c => k.setIfInBounds c.2 (2 * q + 1)) keys)
-    else
-      let (v, s') := s.next
-      match pickMinAfter (W.filter (fun c => c.1.op == .next && c.1.res == v.toNat)) with
-      | none => keys
-      | some c =>
-        assign fuel s' (q + 1) (W.filter (fun d => d.2 != c.2)) rest
-          (keys.setIfInBounds c.2 (2 * (q + 1)))
+/-- the greedy search; `fuel` ≥ the number of calls -/
+def greedy : Nat → SeqState → List Call → Option (List Call)
+  | _, _, [] => some []
+  | 0, _, _ :: _ => none
+  | fuel + 1, s, c0 :: R0 =>
+    let W := window (c0 :: R0)
+    match W.find? (rocMatch s) with
+    | some c => (greedy fuel s ((c0 :: R0).erase c)).map (c :: ·)
+    | none =>
+      match pickMinAfter (W.filter (nextMatch s)) with
+      | some c => (greedy fuel s.next.2 ((c0 :: R0).erase c)).map (c :: ·)
+      | none => none
 
-def keyLe (a b : (Nat × Nat) × Call) : Bool :=
-  a.1.1 < b.1.1 || (a.1.1 == b.1.1 && a.1.2 ≤ b.1.2)
+/-- tail-recursive version for the driver (histories of 10^5 calls) -/
+def greedyTR : Nat → SeqState → List Call → Array Call → Option (List Call)
+  | _, _, [], acc => some acc.toList
+  | 0, _, _ :: _, _ => none
+  | fuel + 1, s, c0 :: R0, acc =>
+    let W := window (c0 :: R0)
+    match W.find? (rocMatch s) with
+    | some c => greedyTR fuel s ((c0 :: R0).erase c) (acc.push c)
+    | none =>
+      match pickMinAfter (W.filter (nextMatch s)) with
+      | some c => greedyTR fuel s.next.2 ((c0 :: R0).erase c) (acc.push c)
+      | none => none
 
-/-- the history re-ordered by the greedy keys (always a permutation of `H`) -/
-def order (s : SeqState) (H : List Call) : List Call :=
-  let idx := H.zipIdx
-  let byBefore := idx.mergeSort (fun a b => a.1.before ≤ b.1.before)
-  let keys := assign (2 * H.length + 2) s 0 [] byBefore (Array.replicate H.length 0)
-  let keyed := idx.map (fun (c, i) => ((keys.getD i 0, c.before), c))
-  (keyed.mergeSort keyLe).map (·.2)
+theorem greedyTR_eq (fuel : Nat) (s : SeqState) (R : List Call) (acc : Array Call) :
+    greedyTR fuel s R acc = (greedy fuel s R).map (acc.toList ++ ·) := by
+  induction fuel generalizing s R acc with
+  | zero => cases R <;> simp [greedyTR, greedy]
+  | succ fuel ih =>
+    cases R with
+    | nil => simp [greedyTR, greedy]
+    | cons c0 R0 =>
+      simp only [greedyTR, greedy]
+      split
+      · rw [ih]; simp [Option.map_map, Function.comp_def]
+      · split
+        · rw [ih]; simp [Option.map_map, Function.comp_def]
+        · rfl
+
+def byBefore (a b : Call) : Bool := a.before ≤ b.before
+
+/-- the linearization found, if any -/
+def findLin (s : SeqState) (H : List Call) : Option (List Call) :=
+  greedyTR H.length s (H.mergeSort byBefore) #[]
 
 /-- the executable check run on recorded histories -/
-def linearizable (s : SeqState) (H : List Call) : Bool := isLinearization s (order s H)
+def linearizable (s : SeqState) (H : List Call) : Bool :=
+  match findLin s H with
+  | some L => isLinearization s L
+  | none => false
 
 /-- reference implementation for tiny histories: try every permutation (used only to cross-check
     `linearizable` on histories of at most 7 calls, kind `c07.synthsmall`) -/
